@@ -77,6 +77,13 @@ pub fn dict_alphabet(rng: &mut Rng, var: Var) -> Alpha {
     let mut pat: Vec<u32> = vec![];
     match var {
         Var::B => {
+            if rng.chance(1, 3) {
+                // consecutive low byte values 0..n (the labels the crate's own unit tests use):
+                // BASE values and slot indices are then of the same magnitude
+                let pat: Vec<u32> = (0..n as u32).collect();
+                let extra = vec![n as u32, 0x80, 0xff];
+                return Alpha { pat, extra };
+            }
             for &b in &[0u32, 1, 255] {
                 if rng.chance(1, 2) {
                     pat.push(b);
